@@ -316,13 +316,8 @@ static Dialect observe_dialect(const Obs &o, const Probe &p) {
 
 // cells excluded by construction because they hit a recorded finding; "" = none
 static std::string known_class(const Cell &c) {
-    if (getenv("C11_NO_EXCLUDE")) return "";   // triage aid: run the excluded cell classes too (e.g. against a tree with candidate fixes)
-    // F-DEFENC-IGNORED: without force_default_encoding, default_encoding_name is never used (ciffile.c:446 sets the converter name to NULL =
-    // system default).  Observable where the named default must decode non-ASCII content: no signature, dialect not certainly CIF 2.0.
-    if (!c.force && !has_sig(c) && (c.enc == E_L1 || c.enc == E_U8L1) && expected_version(c) != 2) return "F-DEFENC-IGNORED";
-    // F-PREFER-SIG: with a Unicode signature (and no force) prefer_cif2 in 1..19 is not consulted: an input without a version comment is
-    // parsed as CIF 1.1 (ciffile.c:416 leaves cif_version 0, parser.c:789 turns 0 into 1).
-    if (!c.force && has_sig(c) && c.magic == M_NONE && c.prefer() > 0 && c.prefer() < 20) return "F-PREFER-SIG";
+    // (F-DEFENC-IGNORED and F-PREFER-SIG are fixed in /repo: no cell class is excluded any more)
+    (void) c;
     return "";
 }
 
